@@ -165,7 +165,7 @@ class Interp(StmtMixin, ExprMixin, CallMixin, BuiltinMixin, OMapMixin, EngineBas
 
             where = traceback.extract_tb(e.__traceback__)[-1]
             res.undecided.append(f"unsupported: translator has no rule here ({type(e).__name__}: {str(e)[:120]} at {where.filename.split('/')[-1]}:{where.lineno}; "
-                                 f"source line {getattr(self.cur_node, 'lineno', '?')})")
+                                 f"source line {getattr(getattr(self, 'cur_node', None), 'lineno', '?')})")
         res.obligations = list(self.obls.values())
         res.gen_time = time.time() - t0
         return res
